@@ -44,7 +44,27 @@ def classifyErr (m : String) : String :=
   else if m = "division by 0" then "ERR:divZero"
   else if m = "x is not a square mod q" then "ERR:notSquare"
   else if m = "x is zero but sign bit is set" then "ERR:signOfZero"
+  else if m = "hex.InvalidByteError" then "ERR:hexBadChar"
+  else if m = "hex.ErrLength" then "ERR:hexOddLen"
+  else if m.startsWith "expected" then "ERR:hexBadSize"
+  else if m.startsWith "can't scan []byte of len" then "ERR:scanBadLen"
+  else if m.startsWith "can't scan" then "ERR:scanBadType"
   else "ERR:other:" ++ m.replace " " "_"
+
+def parseSrc? (kind payload : String) : Option I3.Go.Any :=
+  match kind with
+  | "nil" => some .nil
+  | "int64" => payload.toInt?.map .int64
+  | "float64" => some .float64
+  | "bool" => some (.bool (payload == "true"))
+  | "bytes" => (parseBytes? payload).map .bytes
+  | "string" => (parseBytes? payload).map fun b => .string (String.ofList (I3.Go.Ext.bytesToChars b))
+  | "time" => some .time
+  | "array32" => (parseBytes? payload).map .array32
+  | "array64" => (parseBytes? payload).map .array64
+  | _ => none
+
+def zeros (n : Nat) : Bytes := List.replicate n 0
 
 def showSig (s : (Int × Int) × Int) : String := s!"{showPt s.1} {s.2}"
 
@@ -165,6 +185,67 @@ def genOp (op : String) (pat : String) (args : List String) : Option String := d
     | ((some r, z), true) => pure (if r == z then toString r else toString r ++ "!receiver-differs")
   | "keccak.hash", slices => pure (showBytes (keccak256_Hash (← slices.mapM parseBytes?)))
   | "blake.hash", [b] => pure (showBytes (babyjub_Blake512 (← parseBytes? b)))
+  -- text / SQL codecs
+  | "ed.decompresssig", [t] =>
+    match babyjub_DecompressSig (← parseBytes? t) with
+    | (s, none) => pure (showSig s)
+    | (_, some e) => pure (classifyErr e)
+  | "ed.pk.marshal", [x, y] =>
+    let pk := ((← parseInt? x), (← parseInt? y))
+    match babyjub_PublicKey_MarshalText pk with
+    | (t, none) => pure (if babyjub_PublicKey_String pk == String.ofList (I3.Go.Ext.bytesToChars t) then showBytes t else "!String-differs-from-MarshalText")
+    | (_, some e) => pure (classifyErr e)
+  | "ed.pk.unmarshal", [t] =>
+    match babyjub_PublicKey_UnmarshalText (0, 0) (← parseBytes? t) with
+    | (none, pk) => pure (showPt pk)
+    | (some e, _) => pure (classifyErr e)
+  | "ed.comp.unmarshal", [n, t] =>
+    let n ← parseNat? n
+    let r ← if n = 32 then pure (babyjub_PublicKeyComp_UnmarshalText (zeros 32) (← parseBytes? t))
+      else if n = 64 then pure (babyjub_SignatureComp_UnmarshalText (zeros 64) (← parseBytes? t)) else none
+    match r with
+    | (none, c) => pure (showBytes c)
+    | (some e, _) => pure (classifyErr e)
+  | "ed.comp.marshal", [b] =>
+    let b ← parseBytes? b
+    let (t, s) ← if b.length = 32 then pure ((babyjub_PublicKeyComp_MarshalText b).1, babyjub_PublicKeyComp_String b)
+      else if b.length = 64 then pure ((babyjub_SignatureComp_MarshalText b).1, babyjub_SignatureComp_String b) else none
+    pure (if s == String.ofList (I3.Go.Ext.bytesToChars t) then showBytes t else "!String-differs-from-MarshalText")
+  | "ed.comp.scan", [n, kind, payload] =>
+    let n ← parseNat? n
+    let src ← parseSrc? kind payload
+    let r ← if n = 32 then pure (babyjub_PublicKeyComp_Scan (zeros 32) src, true)
+      else if n = 64 then pure (babyjub_SignatureComp_Scan (zeros 64) src, false) else none
+    match r with
+    | ((none, c), is32) =>
+      let v := if is32 then (babyjub_PublicKeyComp_Value c).1 else (babyjub_SignatureComp_Value c).1
+      pure (if v.asBytes == (c, true) then showBytes c else "!Value-differs")
+    | ((some e, _), _) => pure (classifyErr e)
+  | "ed.pk.scan", [kind, payload] =>
+    match babyjub_PublicKey_Scan (0, 0) (← parseSrc? kind payload) with
+    | (none, pk) => pure (showPt pk)
+    | (some e, _) => pure (classifyErr e)
+  | "ed.sig.scan", [kind, payload] =>
+    match babyjub_Signature_Scan ((0, 0), 0) (← parseSrc? kind payload) with
+    | (none, s) => pure (showSig s)
+    | (some e, _) => pure (classifyErr e)
+  | "ed.pk.value", [x, y] =>
+    match (babyjub_PublicKey_Value ((← parseInt? x), (← parseInt? y))).1.asBytes with
+    | (b, true) => pure (showBytes b)
+    | _ => pure "!not-bytes"
+  | "ed.sig.value", [rx, ry, s] =>
+    match (babyjub_Signature_Value (((← parseInt? rx), (← parseInt? ry)), (← parseInt? s))).1.asBytes with
+    | (b, true) => pure (showBytes b)
+    | _ => pure "!not-bytes"
+  | "u.hexencode", [b] => pure (showBytes (I3.Go.strBytes (utils_HexEncode (← parseBytes? b))))
+  | "u.hexdecode", [t] =>
+    match utils_HexDecode (String.ofList (I3.Go.Ext.bytesToChars (← parseBytes? t))) with
+    | (r, none) => pure (showBytes r)
+    | (_, some e) => pure (classifyErr e)
+  | "u.hexdecodeinto", [n, t] =>
+    match utils_HexDecodeInto (zeros (← parseNat? n)) (← parseBytes? t) with
+    | (none, dst) => pure (showBytes dst)
+    | (some e, _) => pure (classifyErr e)
   | "u.lebytes", [v] => pure (showBytes (utils_BigIntLEBytes (← parseInt? v)))
   | "u.fromle", [b] => pure (toString (utils_SetBigIntFromLEBytes 0 (← parseBytes? b)).1)
   | "u.swap", [b] => pure (showBytes (utils_SwapEndianness (← parseBytes? b)))
